@@ -86,7 +86,7 @@ def case_coq(t, detail, strmode="true"):
         scan_code = 2 if t["scanerr"].startswith("panic") else 1
     return ("(mkC %s (%s : list Z) (%s : list key) %s %s %s %s (%s : list (nat*nat)) (%s : list (list range)) %s (%s : list ((nat*nat) * list (list range * (bool*bool)) * (Z*Z))) %s %s (%s : list (nat*nat)) (%s : list Z) (%s : list (Z*Z)))" % (
         coq_list([coq_bool(b) for b in t["isint"]]), coq_list([z(x) for x in t["pads"]]), keys, coq_list([nat(s) for s in t["in"]["sizes"]]),
-        cond_coq(t["in"]["cond"], [0], strmode), nat(t["in"]["coarse"]), nat(t["minmarks"]), probes, rects, coq_bool(detail), cbs,
+        cond_coq(t.get("effcond") or t["in"]["cond"], [0], strmode), nat(t["in"]["coarse"]), nat(t["minmarks"]), probes, rects, coq_bool(detail), cbs,
         coq_bool(bool(t["conderr"])), nat(scan_code),
         coq_list(["(%s, %s)" % (nat(a), nat(b)) for a, b in t["ranges"]]),
         coq_list([z(x) for x in (t["maybe"] or [])]),
@@ -111,7 +111,7 @@ def atoms(c):
 
 
 def used_keys(t):
-    cols = [a["col"] for a in atoms(t["in"]["cond"]) if a["col"] >= 0]
+    cols = [a["col"] for a in atoms(t.get("effcond") or t["in"]["cond"]) if a["col"] >= 0]
     return max(cols) + 1 if cols else 0
 
 
@@ -626,9 +626,18 @@ def main(ck):
         if m:
             pr = json.loads(m.group(0))["skprobe"]
             ck.cov["skip_index_probe"] = pr
-            if pr.get("minmax_readfunc_nil") != "true" or "panics" not in pr.get("minmax", ""):
-                ck.broken.append("MinMaxIndexReader.ReInit no longer fails on a nil ReadFunc: the min-max skip index became functional "
-                                 "and needs its own stream in this check (not covered)")
+            # CHECKED obligation "min-max and set skip indexes cannot prune today": the check turns red as soon as one of these
+            # facts changes, because then the index needs its own stream (its pruning rule is proved in MinMax.v:
+            # C20_minmax_sound, but nothing ties a reader / writer implementation to it yet)
+            want = {"minmax_readfunc_nil": "true", "minmax_factory_readfunc_nil": "true",
+                    "minmax_writer": "attach_err=false detach_bufs=0 detach_files=0 files_written=0",
+                    "set_writer": "attach_err=false detach_bufs=0 detach_files=0 files_written=0",
+                    "grammar_set": "false", "grammar_minmax": "true", "grammar_bloomfilter": "true"}
+            diff = {k: pr.get(k) for k, v in want.items() if pr.get(k) != v}
+            if diff or "panics" not in pr.get("minmax", ""):
+                ck.broken.append("skip-index probe: the min-max / set skip index no longer is inert (MinMaxIndexReader.ReadFunc nil + ReInit "
+                                 "panics, writers write nothing, `set` not creatable): %s - it became functional and needs its own stream "
+                                 "in this check (not covered)" % (diff or pr.get("minmax")))
         else:
             ck.broken.append("harness c20 bloom: skip-index probe line missing")
     if n:
